@@ -2,11 +2,98 @@
    normalised keys, a valid border and safe traversal.
    Model: GV.Table.Model (mirror of runtime/hashtable.go, runtime/table.go),
    GV.Table.ModelValue (Value.Equals, ToIntNoString), spec GV.Table.Spec.
-   The hash function is universally quantified in every theorem. *)
+   The hash function is universally quantified in every theorem (Section variable);
+   no theorem bounds sizes or history lengths.  The full refinement
+   (get_refines / inv_preserved for the large-mode chains, len_is_border,
+   traversal_exact) is NOT proved — see notes/C03.md; what is proved is listed
+   here, and the faithful model REFUTES the traversal / key-identity / __newindex
+   clauses of C03 on five witnesses (…_refuted), each replayed on the Go code. *)
 From Coq Require Import ZArith NArith List Bool.
-From GV Require Import Table.ModelValue Table.Model Table.Spec Table.ValueProofs.
+From GV Require Import Table.ModelValue Table.Model Table.Spec Table.ValueProofs Table.Proofs.
 Import ListNotations.
+
+(* --- key identity --- *)
+(* Value.Equals = structural equality on all constructor-built values (short, long and empty
+   strings through the packed scalar; ints through the 2^64 wrap; floats with NaN and +-0) *)
+Theorem C03_equals_agrees : forall v w, wf v = true -> wf w = true -> equals v w = raw_eq v w.
+Proof. exact equals_agrees. Qed.
+Print Assumptions C03_equals_agrees.
+
+Theorem C03_raw_eq_equivalence :
+  (forall v, is_nan v = false -> raw_eq v v = true) /\
+  (forall v w, raw_eq v w = raw_eq w v) /\
+  (forall a b c, raw_eq a b = true -> raw_eq b c = true -> raw_eq a c = true).
+Proof. exact (conj raw_eq_refl (conj raw_eq_sym raw_eq_trans)). Qed.
+Print Assumptions C03_raw_eq_equivalence.
+
+(* Lua equality = equality of the normalised keys; partial: the float/float case is not closed *)
+Theorem C03_key_normalisation_partial : forall v w,
+  (forall a b, v = VFlt a -> w = VFlt b -> False) -> raw_eq (norm v) (norm w) = lua_eq v w.
+Proof. exact key_normalisation_partial. Qed.
+Print Assumptions C03_key_normalisation_partial.
 
 Theorem C03_norm_idempotent : forall v, norm (norm v) = norm v.
 Proof. exact norm_idempotent. Qed.
 Print Assumptions C03_norm_idempotent.
+
+Theorem C03_stored_key_never_integral_float : forall v b, norm v = VFlt b -> float_to_int b = None.
+Proof. exact norm_not_integral_float. Qed.
+Print Assumptions C03_stored_key_never_integral_float.
+
+(* --- lookups (any hash function, ANY state, no invariant) --- *)
+(* half of get_refines: the hash part never returns the value of a key that is not Equals to the one asked for *)
+Theorem C03_get_sound_partial : forall hash h k v, hfind hash h k = Ok v -> v <> VNil ->
+  exists t s, h = Some t /\ In s (slots t) /\ equals (skey s) k = true /\ sval s = v.
+Proof. exact hfind_sound. Qed.
+Print Assumptions C03_get_sound_partial.
+
+(* --- traversal stability (any hash function, any state) --- *)
+(* assignment to an existing field through Table.Reset, and every clear, leaves the hash part's
+   slot order, keys, links, flags, nextFree and base untouched, and the array size unchanged *)
+Theorem C03_reset_keeps_shape : forall hash t k v t' b,
+  treset hash t k v = Ok (t', b) ->
+  hshape (hpart t') = hshape (hpart t) /\ asize (apart t') = asize (apart t).
+Proof. intros. split; [eapply treset_hash_shape|eapply treset_array_size]; eassumption. Qed.
+Print Assumptions C03_reset_keeps_shape.
+
+(* --- the property is false of the code as it stands: five witnesses --- *)
+Theorem C03_traversal_clear_refuted :
+  exists t t' b, run_ops (ints 8) = Ok t /\ mget hid t (VInt 8) = Ok (VInt 108) /\
+    treset hid t (VInt 8) VNil = Ok (t', b) /\ mnext hid t' (VInt 8) = Ok (VNil, VNil, false).
+Proof. exact array_clear_refuted. Qed.
+Print Assumptions C03_traversal_clear_refuted.
+
+Theorem C03_set_existing_does_not_move_refuted :
+  exists t t', run_ops strs4 = Ok t /\ mget hid t (VStr [97%N]) = Ok (VInt 1) /\
+    tset hid t (VStr [97%N]) (VInt 101) = Ok t' /\ hshape (hpart t') <> hshape (hpart t).
+Proof. exact set_existing_moves_refuted. Qed.
+Print Assumptions C03_set_existing_does_not_move_refuted.
+
+Theorem C03_key_equality_refuted :
+  exists t, run hclo empty_table (OSet (VClo 1 0) (VInt 1) :: ints 12) = Ok t /\
+    equals (VClo 1 0) (VClo 2 0) = true /\
+    mget hclo t (VClo 1 0) = Ok (VInt 1) /\ mget hclo t (VClo 2 0) = Ok VNil.
+Proof. exact closure_key_refuted. Qed.
+Print Assumptions C03_key_equality_refuted.
+
+Theorem C03_traversal_terminates_refuted :
+  exists t, run_ops [OSet (VInt 1) (VInt 10); OSet (VInt 2) (VInt 20); OSet (VInt 0) (VInt 5)] = Ok t /\
+    mnext hid t (VInt 2) = Ok (VInt 0, VInt 5, true) /\ mnext hid t (VInt 0) = Ok (VInt 1, VInt 10, true).
+Proof. exact next_zero_refuted. Qed.
+Print Assumptions C03_traversal_terminates_refuted.
+
+Theorem C03_newindex_only_if_absent_refuted :
+  exists t t', run_ops [OSet (VInt 6) (VInt 1)] = Ok t /\
+    mget hid t (VFlt 4618441417868443648) = Ok (VInt 1) /\
+    treset hid t (VFlt 4618441417868443648) (VInt 3) = Ok (t', false).
+Proof. exact reset_float_refuted. Qed.
+Print Assumptions C03_newindex_only_if_absent_refuted.
+
+(* non-vacuity of the model: all three insertion cases, a migration, a cleanup, every key retrievable *)
+Theorem C03_demo_history :
+  exists t, run hmod16 empty_table demo = Ok t /\
+    forallb (fun i => match mget hmod16 t (VInt i) with Ok (VInt v) => Z.eqb v (i + 1000) | _ => false end)
+            [100; 132; 101; 117; 20; 36; 52; 53; 37; 1; 2; 3; 4; 200; 216; 232; 5; 6; 7; 8]%Z = true /\
+    mget hmod16 t (VInt 116) = Ok VNil.
+Proof. exact demo_history_ok. Qed.
+Print Assumptions C03_demo_history.
